@@ -1,5 +1,6 @@
 import Driver.Util
 import Driver.Containers
+import Driver.Object
 
 /-
   One function per op of the line protocol.  Each takes the op's JSON (which also carries the
@@ -129,6 +130,7 @@ def dispatch (j : Json) : Except String Res := do
   match op with
   | "expand" | "apply" | "indent" | "pad" | "wrap" | "dumbwrap" | "snip" | "center"
   | "replacelast" | "setlength" | "scrub" | "squash" | "height" | "unicode" => ansiOp op j
+  | "accessor" => accessorOp j
   | "history" => historyOp j
   | "feed" => feedOp j
   | _ => throw s!"unknown op {op}"
